@@ -8,6 +8,7 @@ from collections import Counter
 
 from vf.core import yp
 from vf.core.yp import Processor, YAMLPathException, NodeCoords, LOG
+from yamlpath import YAMLPath
 from yamlpath.exceptions import UnmatchedYAMLPathException
 
 PROPERTY = "C13"
@@ -28,12 +29,16 @@ REACH = [("yamlpath/common/keywordsearches.py", "has_child,_has_concrete_child",
          ("yamlpath/common/keywordsearches.py", "parent", "parent"),
          ("yamlpath/common/keywordsearches.py", "distinct,unique,_track_seen_value", "distinct/unique")]
 SIZES = {"quick": 400000, "thorough": 4000000}
-REQUIRED_COUNTERS = ["minmax_checked", "unique_distinct_checked", "has_child_checked", "parent_checked", "name_checked", "chain_checked", "wildcard_parent_checked", "collector_parent_name_checked", "parent_then_name_checked", "nested_collector_keyword_checked"]
+REQUIRED_COUNTERS = ["minmax_checked", "unique_distinct_checked", "has_child_checked", "parent_checked", "name_checked", "chain_checked", "wildcard_parent_checked", "collector_parent_name_checked", "parent_then_name_checked", "nested_collector_keyword_checked",
+                     "reevaluated_with_same_path_object", "multi_branch_minmax_checked"]
 
 WORDS = ["apple", "bob", "cat", "dog", "emu", "fig"]
 
 
-def run(data, path):
+_CTX = [None, 0]
+
+
+def run1(data, path):
     try:
         return ("OK", list(Processor(LOG, data).get_nodes(path, mustexist=True)))
     except UnmatchedYAMLPathException:
@@ -42,6 +47,38 @@ def run(data, path):
         return ("YPE", str(e)[:120])
     except Exception as e:
         return ("CRASH", "%s: %s" % (type(e).__name__, str(e)[:100]))
+
+
+def run(data, path):
+    """Every third query is evaluated twice through ONE parsed YAMLPath object: what a keyword selects is a function of
+    the document and the path, so the second evaluation must select the same locations as the first."""
+    _CTX[1] += 1
+    ctx = _CTX[0]
+    if ctx is None or _CTX[1] % 3:
+        return run1(data, path)
+    try:
+        obj = YAMLPath(path)
+    except Exception:
+        return run1(data, path)
+    first = run1(data, obj)
+    second = run1(data, obj)
+    ctx.counters["reevaluated_with_same_path_object"] = ctx.counters.get("reevaluated_with_same_path_object", 0) + 1
+    def sig(r):
+        if isinstance(r, NodeCoords):
+            if isinstance(r.node, list) and any(isinstance(x, NodeCoords) for x in r.node):
+                return ("collected", tuple(sig(x) for x in r.node))     # (a collector's result list is made anew each time)
+            if isinstance(r.node, NodeCoords):
+                return ("wrapped", repr(r.parentref), sig(r.node))
+            fresh = isinstance(r.parent, list) and any(isinstance(x, NodeCoords) for x in r.parent)
+            return (None if fresh else id(r.parent), repr(r.parentref), id(r.node) if yp.is_container(r.node) else repr(r.node))
+        return repr(r)
+    a = sorted(map(sig, first[1])) if first[0] == "OK" else first
+    b = sorted(map(sig, second[1])) if second[0] == "OK" else second
+    if a != b and first[0] != "CRASH":
+        ctx.violation("second-evaluation-of-a-path-object-differs", {"case": {"doc": yp.dump(data), "query": path, "reuse": True}, "summary": (
+            "first %r ; second %r" % ([(r.parentref, repr(r.node)[:30]) for r in first[1][:6]] if first[0] == "OK" else first,
+                                      [(r.parentref, repr(r.node)[:30]) for r in second[1][:6]] if second[0] == "OK" else second))})
+    return first
 
 
 def locs(res):
@@ -243,6 +280,23 @@ def check_records(ctx, rng):
                 if got[0] != "OK" or len(got[1]) != len(members) or any(r.node is not want_node for r in got[1]):
                     ctx.violation("%s-then-parent/wrong-ancestor" % kw, {"case": case, "summary": "%d members; got %r" % (
                         len(members), got[1] if got[0] != "OK" else [repr(r.node)[:40] for r in got[1]])})
+    # the same keyword segment evaluated once per branch of a multi-match prefix
+    if have and shape == "aoh":
+        doc2 = "{g: {a: %s, b: %s, c: {recs: []}}}" % (doc, doc.replace("&r", "&q"))
+        data2 = yp.load(doc2)
+        for kw in ("max", "min"):
+            ext = (max if kw == "max" else min)(vals[i] for i in have)
+            members = [i for i in have if vals[i] == ext]
+            q = "g.*.recs[%s(v)]" % kw
+            got = run(data2, q)
+            ctx.evaluations += 1
+            ctx.counters["multi_branch_minmax_checked"] = ctx.counters.get("multi_branch_minmax_checked", 0) + 1
+            wantl = sorted(expect_locs(data2["g"]["a"]["recs"], members) + expect_locs(data2["g"]["b"]["recs"], members))
+            if got[0] == "CRASH":
+                ctx.count("crash_handed_to_C15")
+            elif got[0] != "OK" or locs(got[1]) != wantl:
+                ctx.violation("%s/multi-branch" % kw, {"case": {"doc": doc2, "query": q}, "summary": "got %r ; definition selects members %r of each branch" % (
+                    got[1] if got[0] != "OK" else [(r.parentref, repr(r.node)[:30]) for r in got[1][:8]], members)})
     # name() of each member reached as: collected by a wildcard, descended into, climbed back (buffered results must
     # each keep their own coordinates)
     if n >= 2:
@@ -401,6 +455,7 @@ SEEDS_DOC = [("[{v: 2}, {v: 5}, {w: 9}, {v: 5}, {v: null}]", "[max(v)]", [1, 3])
 
 def run_shard(ctx):
     rng = ctx.rng
+    _CTX[0] = ctx
     if ctx.shard == 0:
         for doc, q, want in SEEDS_DOC:
             data = yp.load(doc)
